@@ -207,6 +207,8 @@ def rule_equivalency_canonical(ctx: Ctx) -> None:
 
 def run(ctx: Ctx) -> None:
     rule_equivalency_canonical(ctx)
+    from ..rules import tableau as _tbx
+    _tbx.rule_xz_rowops(ctx, ["graphiq/backends/stabilizer/functions/linalg.py", "graphiq/backends/stabilizer/functions/stabilizer.py"])  # stabilizer -> graph conversions row-reduce the generators
     rule_density_signs(ctx)
     rule_helper_kinds(ctx)
     repo = ctx.repo
@@ -347,6 +349,7 @@ def _filtered_positions(src: str) -> str:
 
 
 KNOCKOUTS = [
+    Knockout("row-reduction-z-block-added-from-other-row", "graphiq/backends/stabilizer/functions/linalg.py", sub_nth("                z_matrix = add_rows(z_matrix, pivot[0], j)\n", "                z_matrix = add_rows(z_matrix, the_ones[0], j)\n", 0), "sibling.xz-rowops", "_row_red_one_step"),
     Knockout("position-finder-starts-before-first-column", SRC, sub_once("    pivot = [0, 0]\n    n = x_matrix.shape[0]\n    pos_list = []", "    pivot = [-1, -1]\n    n = x_matrix.shape[0]\n    pos_list = []"), "index.negative-start", "_position_finder"),
     Knockout("gf2-inverse-without-pivoting", SRC, sub_once("def _graph_finder(x_matrix, z_matrix, get_ops_data=False):", "def _gf2_inverse(matrix):\n    n = matrix.shape[0]\n    augmented = np.hstack([matrix.astype(int) % 2, np.eye(n, dtype=int)])\n    for col in range(n):\n        assert augmented[col, col] == 1\n        for row in range(n):\n            if row != col and augmented[row, col] == 1:\n                augmented[row] = (augmented[row] + augmented[col]) % 2\n    return augmented[:, n:]\n\n\ndef _graph_finder(x_matrix, z_matrix, get_ops_data=False):"), "elim.no-pivot", "_gf2_inverse"),
     Knockout("filtered-position-as-label", SRC, _filtered_positions, "index.space", "used as a label"),
